@@ -408,8 +408,79 @@ def clone_guard_expressions(ctx, n):
     ctx.coverage["clone_guard_expression_machines"] = done
 
 
+def probe_d39():
+    """a convention-named callback that the machine gives itself *after* its constructor has resolved the callbacks
+    (an instance attribute assigned after `super().__init__()`): the original never calls it, its copy does"""
+    import copy
+    import warnings
+    from statemachine import State, StateMachine
+    with warnings.catch_warnings():
+        warnings.simplefilter("ignore")
+
+        class M(StateMachine):
+            a = State(initial=True)
+            b = State()
+            go = a.to(b)
+
+            def __init__(self):
+                super().__init__()
+                self.log = []
+                self.on_enter_b = self._entered
+
+            def _entered(self):
+                self.log.append("entered b")
+        m = M()
+        c = copy.deepcopy(m)
+        m.go()
+        c.go()
+    return m.log != c.log, f"original's callback log {m.log}, copy's {c.log}"
+
+
+def probe_d40():
+    """a model that owns its machine and provides a guard as an instance attribute: copying the model fails (the
+    machine is rebuilt over the half-built copy of the model)"""
+    import copy
+    import warnings
+    from statemachine import State, StateMachine
+    with warnings.catch_warnings():
+        warnings.simplefilter("ignore")
+
+        class M(StateMachine):
+            a = State(initial=True)
+            b = State()
+            go = a.to(b, cond="ready")
+
+        class Owner:
+            def __init__(self):
+                self.ready = True
+                self.state = None
+                self.sm = M(self)
+        o = Owner()
+        try:
+            o2 = copy.deepcopy(o)
+            o2.sm.go()
+            return o2.state != "b", f"copy's state {o2.state}"
+        except Exception as e:
+            return True, f"copy.deepcopy(owner) raised {type(e).__name__}: {str(e)[:90]}"
+
+
+def run_findings(ctx):
+    known = {k.get("exclusion"): k for k in known_findings("C17") if k.get("status") == "known"}
+    for key, probe, title in (("callback-attribute-assigned-after-construction", probe_d39,
+                               "an attribute callback assigned after construction is called by the copy only"),
+                              ("owner-model-with-instance-attribute-guard", probe_d40,
+                               "a model owning its machine and providing a guard as an instance attribute cannot be copied")):
+        bad, what = probe()
+        if bad:
+            if key in known:
+                ctx.known_printed.append(known[key]["what"] + " [" + what + "]")
+            else:
+                ctx.violation(ctx.write_replay(key + ".txt", title + ": " + what + "\n"), title)
+
+
 def run(ctx):
     lean_obligations(ctx)
+    run_findings(ctx)
     clone_guard_expressions(ctx, 150 if ctx.tier == "quick" else 3000)
     ctx.coverage["rule"] = RULE
     ctx.assumptions += [
